@@ -339,6 +339,18 @@ def _pair_real(case):
         got = env.uc_to_dict(obj.dimensionality)
         if got != rdim(mm):
             raise Violation(f"dimensionality_of_{tag}", f"{mu}|{mv}: pint {got}, R {rdim(mm)}")
+    # the same homomorphism inside pint: dim(u*v) == dim(u)*dim(v), dim(u/v) == dim(u)/dim(v), dim(u**p) == dim(u)**p (== and hash),
+    # and dimensionalities keep the registry's exponent type (no binary floats in a Fraction/Decimal registry)
+    du, dv = u.dimensionality, v.dimensionality
+    p3 = conv_pow(Fraction(3), ty)
+    for tag, a, b in (("product", (u * v).dimensionality, du * dv), ("quotient", (u / v).dimensionality, du / dv), ("power", (u ** p3).dimensionality, du ** p3)):
+        if not (a == b) or hash(a) != hash(b):
+            raise Violation(f"dimensionality_not_homomorphic:{tag}:{ty}", f"{mu}|{mv}: dim of {tag} {dict(a)} vs {tag} of dims {dict(b)}")
+    if ty != "float":
+        for obj in (u, v, u * v):
+            bad = [x for x in obj.dimensionality.values() if isinstance(x, float)]
+            if bad:
+                raise Violation(f"dimensionality_exponent_is_float:{ty}", f"{mu}|{mv}: {dict(obj.dimensionality)}")
     if snapshot("Unit", u) != su or snapshot("Unit", v) != sv:
         raise Violation("operand_mutated:Unit", f"{mu}|{mv}")
 
